@@ -40,6 +40,11 @@ def build(case):
     rows = []
     for i in range(r):
         toks = [cell(i, j, sign) for j in range(c)]
+        if case.get("dates") is not None and c >= 2:
+            # a DATE column; a missing date is written as the NULL value: every line carries a hyphen (in the date or in
+            # -999.25), the documented condition for leaving dates in one piece
+            k = 1 + case["dates"] % (c - 1)
+            toks[k] = "-999.25" if (r >= 2 and i == r // 2) else "2020-%02d-%02d" % (i % 12 + 1, k % 28 + 1)
         if case.get("index") == "text":
             toks[0] = "T%02d" % (i + 1)  # a time-stamp-like text index: the other curves are still float columns
         if not wrap:
@@ -69,6 +74,12 @@ def build(case):
     if dlm in ("COMMA", "TAB"):
         for ln in a["lines"]:
             ln["seps"] = ["," if dlm == "COMMA" else "\t"] * max(0, len(ln["toks"]) - 1)
+    if case.get("runon"):
+        # FORTRAN-style fixed-width columns: a wide negative value runs into the value before it (100.50-110.50); the
+        # file is read with accept_regexp_sub_recommendations=False, the documented switch for this kind of file
+        for ln in a["lines"]:
+            if ln["t"] == "row":
+                ln["seps"] = ["" if t.startswith("-") else " " for t in ln["toks"][1:]]
     # light noise: blank / comment lines at given positions of the data section
     for pos, kind in sorted((list(x) for x in case.get("noise", [])), reverse=True):
         ln = {"t": "blank", "text": ""} if kind == "b" else {"t": "comment", "text": "# note"}
@@ -95,6 +106,8 @@ def oracle(case):
         out.cls("names-" + case["names"])
     if case.get("index"):
         out.cls("index-" + case["index"])
+    if case.get("dates") is not None:
+        out.cls("date-column")
     out.cls("wrapped" if wrap else "unwrapped", "engine-" + case["engine"],
             "d<c" if d < c else "d>c" if d > c else "d=c", "sign-" + case.get("sign", "pos"))
     if case.get("noise"):
@@ -106,7 +119,11 @@ def oracle(case):
     mc = case.get("mnemonic_case", "upper")
     if mc != "upper":
         out.cls("mnemonic_case-" + mc)
-    las = read_spec(spec, engine=case["engine"], mnemonic_case=mc)
+    kw = {}
+    if case.get("runon"):
+        kw["accept_regexp_sub_recommendations"] = False
+        out.cls("run-on-negatives")
+    las = read_spec(spec, engine=case["engine"], mnemonic_case=mc, **kw)
     if is_raised(las):
         out.rejected = True
         out.cls("rejected:" + las.bucket)
@@ -152,6 +169,11 @@ def grid(tier):
                                 yield dict(d=d, c=c, r=r, engine=engine, sign=sign, names="numeric")
                             if r <= 3:
                                 yield dict(d=d, c=c, r=r, engine=engine, sign=sign, index="text")
+                    if c >= 2 and r >= 2:
+                        yield dict(d=d, c=c, r=r, engine=engine, sign="pos", dates=(d + r))
+                    if c >= 2:
+                        yield dict(d=d, c=c, r=r, engine=engine, sign="mixed", runon=True)
+                        yield dict(d=d, c=c, r=r, engine=engine, sign="neg", runon=True)
 
 
 def wrapped_grid(tier):
